@@ -6,7 +6,10 @@ use std::{
     convert::TryInto,
     io::{Error as IoError, ErrorKind, Result as IoResult},
     pin::Pin,
-    sync::Arc,
+    sync::{
+        atomic::{AtomicU16, Ordering},
+        Arc,
+    },
     time::Duration,
 };
 use tokio::{
@@ -163,16 +166,15 @@ impl FrameReader for QuicFrameReader {
 struct QuicFrameWriter {
     conn: Connection,
     session_id: u32,
-    frame_id: u16,
 }
+
+// All sessions of a connection share the peer's reassembly queue, which is keyed by the fragment id alone: the ids
+// of fragmented frames have to be unique across sessions, so every writer draws them from this one counter.
+static NEXT_FRAME_ID: AtomicU16 = AtomicU16::new(0);
 
 impl QuicFrameWriter {
     fn new(conn: Connection, session_id: u32) -> Box<Self> {
-        Box::new(Self {
-            conn,
-            session_id,
-            frame_id: 0,
-        })
+        Box::new(Self { conn, session_id })
     }
 }
 
@@ -201,7 +203,8 @@ impl FrameWriter for QuicFrameWriter {
                 "frame does not fit the datagram size of this connection",
             ));
         }
-        let fragments = Fragments::make_fragments(mtu, &mut self.frame_id, frame);
+        let mut frame_id = NEXT_FRAME_ID.fetch_add(1, Ordering::Relaxed);
+        let fragments = Fragments::make_fragments(mtu, &mut frame_id, frame);
         let mut len = 0;
         for fragment in fragments {
             len += fragment.len();
